@@ -78,7 +78,7 @@ def inputexp_cases(draw):
 
 
 def strategy(tier):
-    generic = fsmlab.fsm_desc(max_states=3, max_events=2, timers=True)
+    generic = fsmlab.fsm_desc(max_states=3, max_events=2, timers=True, flaky=True)
     return st.one_of(generic, generic, timer_cases(), inputexp_cases()).flatmap(
         lambda d: st.booleans().map(lambda cb: dict(d, cb_driver=cb)))
 
@@ -185,6 +185,8 @@ def execute(case):
         res.classes.append('tie (set-valued)')
     if model.stale_cancelled:
         res.classes.append('pending timer cancelled by leaving the state')
+    if model.nonfatal:
+        res.classes.append('output event refused by its destination (non-fatal)')
     if model.timed_deliveries:
         res.classes.append('timed event delivered')
     if near:
